@@ -1,1 +1,3 @@
-
+pub mod message;
+pub mod packet;
+pub mod rlp;
